@@ -80,6 +80,8 @@ func (s *sampler) classPick(e *Expr) rune {
 			cands = append(cands, 'Ω')
 		case "Cyrillic":
 			cands = append(cands, 'Ж')
+		case "ASCII_Hex_Digit":
+			cands = append(cands, 'a', 'F', '0')
 		case "C":
 			cands = append(cands, '\t')
 		case "M":
